@@ -88,3 +88,35 @@ def rint_clauses(x, rm, r):
         'inexact_iff_changed': r._real._flags.inexact == T[1],
     })
     return out
+
+
+def floor_int3(s, exp, c):
+    """floor((-1)^s * c * 2^exp) as an integer"""
+    return ((ite(s, -c, c) * pow2(exp)) if exp >= 0 else
+            ite(s, -(fdiv(c, pow2(-exp)) + b2i(fmod(c, pow2(-exp)) != 0)), fdiv(c, pow2(-exp))))
+
+
+def iabs(v):
+    return ite(v >= 0, v, -v)
+
+
+def floor_mag_rto(D, S, E, neg):
+    """
+    |floor(v)| for v = (-1)^neg * rto_c(D, S) * 2^E with E < 0: the integer part of |v|, plus one when v is
+    negative and not an integer (RealFloat.__floor__: fixed-point rounding at n = -1 toward minus infinity)
+    """
+    c1 = rto_c(D, S)
+    return fdiv(c1, pow2(-E)) + b2i(neg and fmod(c1, pow2(-E)) != 0)
+
+
+# ---------------------------------------------------------------------------
+# external models
+
+def math_floor_model(v):
+    """math.floor(v) for a non-float object is type(v).__floor__(v) (Python data model)"""
+    return v.__floor__()
+
+
+EXTERNAL_MODELS = {
+    'math.floor': 'math_floor_model',
+}
